@@ -97,7 +97,7 @@ def long_items(tier: str):
     quick = tier == 'quick'
     ips = digit_strings(1 if quick else 2)
     frs = digit_strings(1 if quick else 2)
-    exps = ['', 'e1', 'e-5'] if quick else ['', 'e1', 'e-5', 'e22', 'e-30']
+    exps = ['', 'e1', 'e-5'] if quick else ['', 'e1', 'e-5', 'e22']
     out = []
     for sg in ('', '-'):
         for ip in ips:
@@ -451,6 +451,8 @@ class Check(BaseCheck):
             r.outcomes[f'{form}:{mech}:VIOLATES'] += 1
             r.violate(sig, {'form': form, 'src': src},
                       f'`return {src}` denotes {short(want)} [{mech}]\n' + '\n'.join(t for _, _, t in fails))
+        elif form == 'hexprobe' and got is None:
+            r.count('hexprobe_refused_not_judged')
         else:
             r.outcomes[f'{form}:{mech}:ok'] += 1
 
